@@ -143,7 +143,7 @@ def job_general(job, family, maxlen, terminals=('a', 'b'), nsym=None, history=Fa
                    d.iff(E.lit(r), sem.derives(variables[which])) ^ 1, replay=('cyk_history', {'G': dec, 'second_start': variables[1], 'word': w}))
     ncfg = c.native('cfg_algorithms')
     job.differential(15, lambda mv: {w: c.conc(acc[w], mv) for w in words},
-                     lambda mv: (lambda Gn: {w: ncfg.cfg_accepts_word(Gn, w) for w in words})(nat.mk_cfg(dec(mv), c.native('cfg'))), 'cfg_accepts_word')
+                     lambda mv: (lambda Gn: {w: ncfg.cfg_accepts_word(Gn, w) for w in words})(nat.mk_cfg(dec(mv), c.native('cfg'))), 'cfg_accepts_word', replay=('cyk', {'G': dec, 'word': words[-1]}))
     for w in words:
         if acc[w] is None:
             continue
